@@ -239,6 +239,8 @@ def block : P Block := do
 
 structure Case where
   id : Nat
+  /-- `Statistics(&st, "no match")` passed: only changes the label of the no-match counter -/
+  stats : Bool
   flags : Flags
   opts : Opts
   fuel : Nat
@@ -274,7 +276,8 @@ def case_ : P Case := do
   let blocks ← times nb block
   let input ← hexBytes
   pure { id := id, flags := { optimize := o, globalState := g, leftRec := l, basicLatin := b },
-         opts := { memoize := memoize, stats := stats,
+         stats := stats,
+         opts := { memoize := memoize,
                    maxExpr := if maxExpr = 0 then none else some maxExpr,
                    entry := entry, allowInvalid := allowInvalid, recover := recover,
                    filename := filename, initState := initState, initGlobal := initGlobal },
@@ -350,26 +353,27 @@ def fmtPanic : PanicVal → String
   | .str m => "s " ++ hexOfString m
   | .int n => "i " ++ toString n
 
-def fmtChoices (hasStats : Bool) (c : List ((String × String) × Nat)) : String :=
+def fmtChoices (hasStats : Bool) (noMatch : String) (c : List ((String × Option Nat) × Nat)) : String :=
   if !hasStats then "0" else
-  let sorted := (c.toArray.qsort (fun a b => a.1.1 < b.1.1 || (a.1.1 == b.1.1 && a.1.2 < b.1.2))).toList
+  let c' := c.map (fun ((i, a), n) => ((i, match a with | some k => toString (k + 1) | none => noMatch), n))
+  let sorted := (c'.toArray.qsort (fun a b => a.1.1 < b.1.1 || (a.1.1 == b.1.1 && a.1.2 < b.1.2))).toList
   " ".intercalate (toString c.length ::
     sorted.map (fun ((i, a), n) => hexOfString i ++ " " ++ hexOfString a ++ " " ++ toString n))
 
-def fmtTail (E : Env) (errs : List String) (s : PState) : String :=
+def fmtTail (E : Env) (noMatch : String) (errs : List String) (s : PState) : String :=
   " ".intercalate
     ([toString errs.length] ++ errs.map hexOfString ++
      [toString s.pt.pos.off, toString s.pt.pos.line, toString s.pt.pos.col, toString s.exprCnt,
       toString s.maxFailPos.off, toString s.maxFailPos.line, toString s.maxFailPos.col,
       toString s.maxFailExpected.length] ++ s.maxFailExpected.reverse.map hexOfString ++
      [if E.useState then fmtStore s.state else "0", fmtStore s.global,
-      fmtChoices (!E.flags.optimize) s.choiceCnt,
+      fmtChoices (!E.flags.optimize) noMatch s.choiceCnt,
       toString s.trace.length] ++ s.trace.reverse.map fmtEvent)
 
-def fmtResult (id : Nat) (E : Env) : RT.Final → String
+def fmtResult (id : Nat) (E : Env) (noMatch : String) : RT.Final → String
   | .oof => s!"res {id} oof"
-  | .ret v errs s => s!"res {id} ret {fmtVal v} {fmtTail E errs s}"
-  | .panic p s => s!"res {id} panic {fmtPanic p} {fmtTail E s.errs s}"
+  | .ret v errs s => s!"res {id} ret {fmtVal v} {fmtTail E noMatch errs s}"
+  | .panic p s => s!"res {id} panic {fmtPanic p} {fmtTail E noMatch s.errs s}"
 
 def envOfCase (c : Case) (tl : Rune → Rune) : Env :=
   let hasState := c.flags.globalState || !c.flags.optimize
@@ -378,7 +382,7 @@ def envOfCase (c : Case) (tl : Rune → Rune) : Env :=
 
 def runCase (c : Case) (tl : Rune → Rune) : String :=
   let E := envOfCase c tl
-  fmtResult c.id E (RT.parse E c.fuel)
+  fmtResult c.id E (if c.stats then "no match" else "") (RT.parse E c.fuel)
 
 end Protocol
 end PV
